@@ -119,7 +119,7 @@ func runC12(c *Ctx) {
 			continue
 		}
 		// captured w? handlers are closures with their own params
-		w := ssa.Value(fn.Params[0])
+		w := ssa.Value(ParamAt(fn, 0))
 		isAns := func(i ssa.Instruction) bool { _, ok := producesResponse(i, w); return ok }
 		wk := &Walk{Target: IsReturn, Avoid: isAns}
 		hit, path := wk.FromBlock(fn.Blocks[0])
@@ -215,7 +215,7 @@ func runC12(c *Ctx) {
 		if okIf == nil {
 			c.Bad("C12.U", name+":unknown-session-400", p, ld.Pos(), "the found/not-found result of connections.Load is not tested")
 		} else {
-			w := ssa.Value(fn.Params[0])
+			w := ssa.Value(ParamAt(fn, 0))
 			blk := okIf.Block().Succs[missSucc]
 			is400 := func(i ssa.Instruction) bool { st, ok := producesResponse(i, w); return ok && st == 400 }
 			hit, _ := (&Walk{Target: IsReturn, Avoid: is400}).FromBlock(blk)
@@ -240,7 +240,7 @@ func runC12(c *Ctx) {
 		// nil result => 408
 		okT := false
 		EachInstr(fn, func(i ssa.Instruction) {
-			if st, ok := producesResponse(i, fn.Params[0]); ok && st == 408 {
+			if st, ok := producesResponse(i, ParamAt(fn, 0)); ok && st == 408 {
 				okT = true
 			}
 		})
@@ -554,7 +554,7 @@ func c12ErrTo400(c *Ctx, p *Prog, fn *ssa.Function, call ssa.Instruction, key st
 		c.Bad("C12.U", key, p, call.Pos(), "the error of "+CalleeName(cv.Common())+" is not tested: calls on a closed session are answered 200")
 		return
 	}
-	w := ssa.Value(fn.Params[0])
+	w := ssa.Value(ParamAt(fn, 0))
 	blk := ifi.Block().Succs[succ]
 	is400 := func(i ssa.Instruction) bool { st, ok := producesResponse(i, w); return ok && st == 400 }
 	hit, _ := (&Walk{Target: IsReturn, Avoid: is400}).FromBlock(blk)
